@@ -85,7 +85,10 @@ func applyServiceExtends(ctx context.Context, name string, services map[string]a
 	)
 
 	if file != nil {
-		refFilename := file.(string)
+		refFilename, ok := file.(string)
+		if !ok {
+			return nil, fmt.Errorf("services.%s.extends.file must be a string", name)
+		}
 		services, processor, err = getExtendsBaseFromFile(ctx, name, ref, filename, refFilename, opts, tracker)
 		post = append(post, processor)
 		if err != nil {
